@@ -655,6 +655,46 @@ def s1(ctx):
                       'is replaced, so the unpickled treespec differs from the original (repr, '
                       'namespace, lookups)' % (label, i, bad.text(5) if bad is not None else ''),
                       (bad.loc if bad is not None else wf.loc))
+    # the state of node i is written from node i, in the iteration that visits it: one per-node
+    # tuple constructor, stored on every path through the loop body, straight from the constructor
+    # (or from a local initialised by it) - not from a memo shared between nodes
+    node_ctors = [c for c in calls_in(wf.body, {'make_tuple'})
+                  if any('kind' in tokens(prog, wf, a, {}) for a in c.call_args() if a is not None)]
+    holder = next(iter(wstate.get(0, {'<?>'})), '<?>').strip('<>')
+    stores = [c for c in calls_in(wf.body, {'TupleSetItem', 'PyTuple_SET_ITEM', 'PyTuple_SetItem'})
+              if c.call_args() and member_path(strip_casts(c.call_args()[0])) == holder]
+    cfgw = cfg_of(wf)
+    why = None
+    if len(node_ctors) != 1:
+        why = '%d constructors of a per-node state tuple' % len(node_ctors)
+    elif len(stores) != 1:
+        why = '%d stores into `%s`' % (len(stores), holder)
+    else:
+        st = stores[0]
+        val = strip_casts(st.call_args()[2]) if len(st.call_args()) > 2 else None
+        direct = val is not None and any(x is node_ctors[0] for x in val.walk())
+        if not direct and val is not None and val.kind == 'DeclRefExpr':
+            iv = local_inits(wf).get(member_path(val))
+            vd = [v for v in wf.body.find('VarDecl') if v.name == member_path(val)]
+            direct = iv is not None and any(x is node_ctors[0] for x in iv.walk()) and \
+                all('&' not in (v.type or '') for v in vd)
+        sn = cfgw.cnode_of(st)
+        heads = {w for (v, w) in cfgw.back_edges if sn is not None and cfgw.dominates(w, sn)}
+        if not direct:
+            why = 'the value stored (`%s`) is not the tuple built from this node' % (val.text(4) if val is not None else '?')
+        elif sn is None or not heads:
+            why = 'the store is not inside the loop over the nodes'
+        else:
+            # from the loop head, the next visit of the head cannot be reached without the store
+            for h in heads:
+                body_in = [w for (w, lab) in cfgw.succ[h]]
+                r = cfgw.reachable_from(body_in, None, {sn})
+                if any((v, h) in cfgw.back_edges for v in r):
+                    why = 'a path through the loop body skips the store'
+    ctx.check('ToPickleable/one-state-per-node', why is None,
+              'ToPickleable builds the state of every node from that node, in its own iteration',
+              'ToPickleable: %s: the state written for a node need not be that node\'s (its counts, '
+              'data or keys can be another node\'s)' % why, wf.loc)
     ctx.check('ToPickleable/state-has-flags',
               {'m_none_is_leaf', 'm_namespace'} <= set(wmap.values()),
               'none_is_leaf and namespace are part of the pickled state',
